@@ -38,19 +38,35 @@ type shared struct {
 	message  *ast.DataMessage
 	complete *ast.DataMessage
 	bytes    []byte
+	smlText  string
 }
 
 func newShared() *shared {
+	// one wide list (70 direct items, one of them a list of 40) is part of the template, of the message on it and - two
+	// levels further down - of the complete message: the same node is printed, encoded and listed at several depths at once
+	var wideKids []interface{}
+	for k := 0; k < 70; k++ {
+		wideKids = append(wideKids, ast.NewUintNode(1, k))
+	}
+	var inner []interface{}
+	for k := 0; k < 40; k++ {
+		inner = append(inner, ast.NewASCIINode(fmt.Sprint("w", k)))
+	}
+	wideKids[35] = ast.NewListNode(inner...)
+	wide := ast.NewListNode(wideKids...)
 	t := ast.NewListNode(ast.NewUintNode(1, "x", 7), ast.NewASCIINodeVariable("s", 1, 3), "v",
-		ast.NewListNode(ast.NewIntNode(2, "y"), "...[0]"), "...[1]")
+		ast.NewListNode(ast.NewIntNode(2, "y"), "...[0]"), wide, "...[1]")
 	s := &shared{template: t}
+	// (the text the SML parser calls share is the small template without the wide list: parsing is the slowest call)
+	s.smlText = ast.NewDataMessage("msg", 1, 1, 2, "H->E", ast.NewListNode(ast.NewUintNode(1, "x", 7), ast.NewASCIINodeVariable("s", 1, 3), "v",
+		ast.NewListNode(ast.NewIntNode(2, "y"), "...[0]"), "...[1]")).String()
 	s.message = ast.NewDataMessage("msg", 1, 1, 2, "H->E", t)
 	// (more than a page of text, and never encoded or printed before the goroutines get it: nothing is warm.
 	// The bytes for the decoder come from a twin.)
 	mk := func() *ast.DataMessage {
 		return ast.NewHSMSDataMessage("c", 3, 5, 1, "H<-E",
 			ast.NewListNode(ast.NewASCIINode("text"), ast.NewFloatNode(8, 1.5, -2.25), ast.NewBinaryNode(1, 2, 255),
-				ast.NewASCIINode(strings.Repeat("0123456789abcdef", 320))), 77, []byte{9, 8, 7, 6})
+				ast.NewASCIINode(strings.Repeat("0123456789abcdef", 320)), ast.NewListNode(ast.NewListNode(wide))), 77, []byte{9, 8, 7, 6})
 	}
 	s.complete = mk()
 	if h, err := hex.DecodeString(os.Getenv("VERIF_CONC_BYTES")); err == nil && len(h) > 0 {
@@ -59,6 +75,21 @@ func newShared() *shared {
 		s.bytes = mk().ToBytes()
 	}
 	return s
+}
+
+// fillCount: the repeat count a Fill call uses. In a cold process (conc-cold) it is above 255 and different for every
+// call position, so that concurrent fills need indices no earlier call of the process has used.
+func (s *shared) fillCount(c concCall) int {
+	if os.Getenv("VERIF_CONC_BYTES") == "" {
+		return 2
+	}
+	switch c.Obj {
+	case "template":
+		return 300
+	case "message":
+		return 420
+	}
+	return 510
 }
 
 func dig(v interface{}) string {
@@ -114,7 +145,7 @@ func (s *shared) exec(c concCall, tag string) string {
 		case "Header":
 			out = dig(msg().Header())
 		case "Fill":
-			vals := map[string]interface{}{"...[0]": 2, "x": 5, "s": "ab", "v": "fresh_" + tag, "y": "ren_" + tag, "unknown": 1}
+			vals := map[string]interface{}{"...[0]": s.fillCount(c), "x": 5, "s": "ab", "v": "fresh_" + tag, "y": "ren_" + tag, "unknown": 1}
 			if c.Obj == "template" {
 				out = dig(norm(fmt.Sprint(s.template.FillVariables(vals))))
 			} else {
@@ -127,7 +158,7 @@ func (s *shared) exec(c concCall, tag string) string {
 			m := msg().SetSessionIDAndSystemBytes(4660, []byte{1, 2, 3, 4})
 			out = dig([]interface{}{m.String(), m.SessionID(), m.SystemBytes(), m.ToBytes()})
 		case "SmlParse":
-			text := strings.NewReplacer(" x ", " x"+tag+" ", " s>", " s"+tag+">", "\n  v\n", "\n  v"+tag+"\n", " y>", " y"+tag+">").Replace(s.message.String())
+			text := strings.NewReplacer(" x ", " x"+tag+" ", " s>", " s"+tag+">", "\n  v\n", "\n  v"+tag+"\n", " y>", " y"+tag+">").Replace(s.smlText)
 			ms, errs, warns := sml.Parse(text)
 			var r []string
 			for _, m := range ms {
